@@ -33,7 +33,7 @@ var c09Widths = []uint64{17, 24, 31, 32, 33, 48, 63, 64, 65, 96, 127, 128, 129, 
 
 func genC09(ctx *fw.Ctx) []fw.Case {
 	var cases []fw.Case
-	maxExh := uint64(ctx.Pick(13, 17))
+	maxExh := uint64(ctx.Pick(13, 18))
 	for w := uint64(1); w <= maxExh; w++ {
 		w := w
 		nblk := 1
@@ -533,7 +533,7 @@ func structuredValues(w uint64, rng *rand.Rand, nrand int) []*big.Int {
 
 func c09Structured(r *fw.Rec, w uint64) {
 	rng := r.Ctx().Rand(fmt.Sprintf("struct/%d", w))
-	nrand := r.Ctx().Pick(1500, 40000)
+	nrand := r.Ctx().Pick(1500, 160000)
 	if w > 600 {
 		nrand /= 4
 	}
